@@ -112,7 +112,7 @@ impl Check for C14 {
                             // narrower than the surface whose outer clip has been popped again ("no clip")
                             if ri % 7 == (si % 7) {
                                 let general2 = Op::Fill(PathSpec::rect(x as f32, y as f32, rw as f32, rh as f32), src.clone(), o);
-                                for pre in [vec![Op::PushLayer(0.5, BlendMode::SrcOver)], vec![Op::PushClipRect(1, 0, w, h - 1), Op::PushLayer(1.0, BlendMode::SrcOver), Op::PopClip]] {
+                                for pre in [vec![Op::PushLayer(0.5, BlendMode::SrcOver)], vec![Op::PushClipRect(1, 0, w, h - 1), Op::PushLayer(1.0, BlendMode::SrcOver), Op::PopClip], vec![Op::PushClipRect(0, 1, w - 1, h), Op::PushLayer(1.0, BlendMode::SrcOver), Op::PopClip], vec![Op::PushClipRect(1, 2, w, h), Op::PushLayer(0.75, BlendMode::SrcOver), Op::PopClip]] {
                                     let mut oa = pre.clone();
                                     oa.push(fast.clone());
                                     oa.push(Op::PopLayer);
@@ -176,14 +176,17 @@ impl Check for C14 {
         {
             let (w, h) = (8, 7);
             let img = image_of(3, 2, &VALS12, 3);
-            let xfs: Vec<Xf> = vec![[1., 0., 0., 1., 0.5, 0.], [1., 0., 0., 1., 0.25, 0.75], [2., 0., 0., 2., 0., 0.], [1.5, 0., 0., 0.75, 0.5, 1.], [0.8660254, 0.5, -0.5, 0.8660254, 3., 0.], [0., 1., -1., 0., 7., 0.], [1., 0.5, 0., 1., 0., 0.]];
-            run.bound("draw_image_at under a transform", format!("draw_image_at at integer positions in [-1,3]x[-1,2] under {} current transforms x 3 modes x 2 alphas vs fill_rect / path fill of the rectangle with the translated Pad+Bilinear image source", xfs.len()));
+            // the last four: the user-space position lies off the surface (beyond it, or negative) while
+            // the image lands on it
+            let xfs: Vec<Xf> = vec![[1., 0., 0., 1., 0.5, 0.], [1., 0., 0., 1., 0.25, 0.75], [2., 0., 0., 2., 0., 0.], [1.5, 0., 0., 0.75, 0.5, 1.], [0.8660254, 0.5, -0.5, 0.8660254, 3., 0.], [0., 1., -1., 0., 7., 0.], [1., 0.5, 0., 1., 0., 0.], [1., 0., 0., 1., -10., -9.], [1., 0., 0., 1., 9., 8.], [0.5, 0., 0., 0.5, -4., -4.], [1., 0., 0., 1., 0., -7.]];
+            let shifts: Vec<(i32, i32)> = vec![(0, 0), (0, 0), (0, 0), (0, 0), (0, 0), (0, 0), (0, 0), (10, 9), (-9, -8), (10, 9), (0, 7)];
+            run.bound("draw_image_at under a transform", format!("draw_image_at at 5x4 integer positions under {} current transforms (four of them with the user-space position off the surface while the image lands on it) x 3 modes x 2 alphas vs fill_rect / path fill of the rectangle with the translated Pad+Bilinear image source", xfs.len()));
             run.par(xfs.len(), |ti, l| {
                 for mode in [BlendMode::SrcOver, BlendMode::Src, BlendMode::Xor] {
                     for alpha in [1.0f32, 0.5] {
                         let o = Opts { mode, alpha, aa: true };
-                        for x in -1..=3 {
-                            for y in -1..=2 {
+                        for x in -1 + shifts[ti].0..=3 + shifts[ti].0 {
+                            for y in -1 + shifts[ti].1..=2 + shifts[ti].1 {
                                 let a = Scene { w, h, dst: Dst::Distinct, ops: vec![Op::SetTransform(xfs[ti]), Op::DrawImageAt(x as f32, y as f32, 3, 2, img.clone(), o)] };
                                 let s = SrcSpec::Image { w: 3, h: 2, data: img.clone(), repeat: false, bilinear: true, xf: [1., 0., 0., 1., -(x as f32), -(y as f32)] };
                                 let b = Scene { w, h, dst: Dst::Distinct, ops: vec![Op::SetTransform(xfs[ti]), Op::FillRect(x as f32, y as f32, 3., 2., s.clone(), o)] };
